@@ -52,8 +52,8 @@ func addSpec(s *Spec) {
 	specs[s.ID] = s
 }
 
-var portfolioMain = []string{"p1", "p14", "p2", "p3", "p4", "p5", "p8"}
-var portfolioAll = []string{"p1", "p10", "p11", "p12", "p14", "p2", "p3", "p4", "p5", "p6", "p7", "p8", "p9"}
+var portfolioMain = []string{"p1", "p14", "p15", "p2", "p3", "p4", "p5", "p8"}
+var portfolioAll = []string{"p1", "p10", "p11", "p12", "p14", "p15", "p2", "p3", "p4", "p5", "p6", "p7", "p8", "p9"}
 
 func init() {
 	addSpec(&Spec{ID: "C01", Title: "write-then-read returns exactly the records added", Level: "exploration",
@@ -86,11 +86,11 @@ func init() {
 	})
 	addSpec(&Spec{ID: "C06", Title: "every Add/Write/Close history gives one row group per non-empty batch", Level: "exploration",
 		Shapes: []string{"p2", "p5"},
-		Rule: "all histories over {Add, Write} of length <= L (quick 8, thorough 12) then Close, x page sizes 1..4 x 3 codecs on P2 and P5, plus seeded long histories (batches up to 3*page+1); " +
+		Rule: "all histories over {Add, Write} of length <= L (quick 8, thorough 12) then Close, x page sizes 1..4 x 3 codecs on P2 and P5, plus seeded long histories (batches up to 3*page+1) and four histories with batches and pages of 8191..16385 records (uniform and mixed records: level runs with three-byte headers); " +
 			"each checked online against a batch-list model (file valid per C02 checker, row groups = non-empty batches, column content = striping of those batches, read-back = their records); " +
 			"distinct = (shape, codec, page, history); non-trivial = history has a Write with nothing pending, records pending at Close, or a batch >= page size",
 		Require: []string{"class_empty_write_leading", "class_empty_write_middle", "class_empty_write_trailing", "class_empty_write_double", "class_batch_multiple_of_page",
-			"class_batch_multiple_of_page_plus_1", "class_pending_at_close", "class_close_with_nothing_written", "long_histories"},
+			"class_batch_multiple_of_page_plus_1", "class_pending_at_close", "class_close_with_nothing_written", "long_histories", "big_histories"},
 		Exhaustive: func(r *Run) bool { return false },
 		Extra: func(r *Run, cov map[string]interface{}) {
 			cov["exhaustive_part"] = fmt.Sprintf("all %d histories of length <= %d per (shape, codec, page) were run", r.M.Counters["exhaustive_histories"], r.M.Maxes["max_exhaustive_history_length"])
